@@ -172,7 +172,7 @@ func (s *proc) sync() []string {
 		}
 		if err != nil {
 			s.dead = true
-			lines = append(lines, "(error \"solver died: "+err.Error()+"\")")
+			lines = append(lines, "(died \""+err.Error()+"\")") // watchdog kill or crash: the query is unknown, not an encoding error
 			return lines
 		}
 	}
@@ -251,6 +251,8 @@ func parseResult(lines []string) (Result, bool) {
 			res = Unsat
 		case l == "unknown":
 			res = Unknown
+		case strings.HasPrefix(l, "(died"):
+			return Unknown, false
 		case strings.Contains(l, "error"):
 			bad = true
 		}
